@@ -35,9 +35,10 @@ META = dict(
                "claims timeout enforcement for async functions only; for sync functions wait_for gives up but the thread "
                "runs on (modelled: BodyDetached; the oracle accepts both outcomes there). Equality duration = timeout is the "
                "event loop's choice (c_tie) and not generated. Return values and exception instances are compared by value "
-               "id / class; serialisation of the result is C19's subject. For a FALSY exception object (__bool__ False / "
-               "__len__ 0) only is_err is demanded: TaskiqResult's validator turns it into error=None (a falsy no-result signal "
-               "is therefore stored: proposed finding corpus/C07/proposed, never generated).",
+               "id / class; serialisation of the result is C19's subject. A FALSY exception object (__bool__ False / "
+               "__len__ 0; subclasses of NoResultError, TimeoutError, CancelledError included) is an exception like any other: "
+               "the full statement is demanded (repaired finding falsy_no_result_signal, regression inputs "
+               "corpus/C07/falsy_no_result_signal_is_stored.json, falsy_exceptions_full_statement.json).",
     rule="case = 1-6 concurrent messages x outcome x timeout label x backend plan x stack; non-trivial iff some well-formed "
          "message has an outcome other than plain return, or a duration within 2x of its timeout label, or a failing save "
          "followed (in the same run) by another message; distinct by canonical case",
